@@ -75,7 +75,7 @@ SCHEMA_URL = "file:///sim/schema/c05.xml"
 
 NAMES = ["a", "b", "ab"]
 SPELL = {"a": ["a", "A"], "b": ["B", "b"], "ab": ["aB", "AB", "ab", "Ab"]}
-BAD_NAMES = ["1a", "a-b", "a.b", "é"]
+BAD_NAMES = ["1a", "a-b", "a.b", "é", "$a", "${B}", "$$a", "a$b"]
 ENV_SET = "ZCSIM_E1"
 ENV_UNSET = "ZCSIM_E2"
 USE_STYLES = ["$%s", "${%s}", "p${%s}q", "$%s$%s"]
@@ -344,7 +344,7 @@ def random_step(rng):
     elif r < 0.92:
         v = rng.choice(value_shapes(spell(rng, rng.choice(NAMES))))
         if rng.random() < 0.2:
-            v = v + rng.choice([" tail", "$$", "${%s}" % spell(
+            v = v + rng.choice([" tail", " tail", "$$", "${%s}" % spell(
                 rng, rng.choice(NAMES))])
     else:
         v = rng.choice(EXTRA_VALUES)
@@ -428,7 +428,10 @@ def generate(rng, tier, index):
     steps = structure(rng, steps)
     plan = {"prop": ID, "origin": origin, "steps": steps,
             "top": rng.choice(TOPS), "other": other_history(rng),
-            "env": {ENV_SET: "envval"}, "fault": None}
+            "env": {ENV_SET: "envval"}, "fault": None,
+            # one ConfigLoader instance for the whole sequence of loads, or
+            # ZConfig.loadConfig (a new loader per load)
+            "reuse_loader": rng.random() < 0.5}
     incs = includes_of(steps)
     if incs and rng.random() < 0.25:
         j = rng.randint(1, len(incs))
@@ -447,8 +450,11 @@ def observe(cfg):
     return {"k": list(cfg.k), "s": [list(s.k) for s in cfg.s]}
 
 
-def load(schema, top):
-    cfg, _h = ZConfig.loadConfig(schema, top)
+def load(schema, top, loader=None):
+    if loader is not None:
+        cfg, _h = loader.loadURL(top)
+    else:
+        cfg, _h = ZConfig.loadConfig(schema, top)
     return cfg
 
 
@@ -493,12 +499,12 @@ def compare(pred, real, faulty=False):
     return bad
 
 
-def run_load(w, schema, store, top, name, faults=()):
+def run_load(w, schema, store, top, name, faults=(), loader=None):
     w.store = store
     w.begin_op(name, faults)
 
     def fn():
-        cfg = load(schema, top)
+        cfg = load(schema, top, loader)
         return {"ok": True, "values": observe(cfg)}
     try:
         o = fn()
@@ -544,6 +550,11 @@ def execute(plan):
         if not so["ok"]:
             raise RuntimeError("C05 schema rejected: " + ops.brief(so))
         schema = so["schema"]
+        loader = None
+        if plan.get("reuse_loader"):
+            import ZConfig.loader
+            loader = ZConfig.loader.ConfigLoader(schema)
+            probe("one-loader-for-all-loads")
         pred = model_predict(steps, env)
         pred_other = model_predict(plan["other"], env)
         sequence = [("load-1", store, top, pred),
@@ -558,7 +569,7 @@ def execute(plan):
                            "kind": fault["kind"]}]
                 this_pred = model_predict(steps, env,
                                           stop_at_include=fault["at"])
-            o, fired = run_load(w, schema, st, url, which, faults)
+            o, fired = run_load(w, schema, st, url, which, faults, loader)
             out["evaluations"] += 1
             if fired:
                 out["fired"][fault["kind"]] = out["fired"].get(
